@@ -1,4 +1,5 @@
 import HcModel.Generated.WritePath
+import HcModel.Generated.EventLock
 import HcModel.SessLookup
 import HcProofs.Lemmas.ConnWrite
 /-
@@ -202,5 +203,33 @@ theorem close_race_unfixed_refuted :
 /-- the source as it is now performs exactly one session lookup per `Write` (Generated/WritePath.lean), which is what
     `write true` models -/
 theorem write_looks_session_up_once : Hc.Generated.writeLookups = 1 := by decide
+
+-- events and the request that is being served (regenerated) -------------------------------------------------------------
+
+/-- shape of a method that does everything under the connection's event lock: the exclusive lock is the first step, its
+    release is deferred (so it covers whatever follows, also the socket write), and no step releases it earlier, takes
+    it again, takes it shared or conditionally, or hands work to another goroutine -/
+def underEventLock : List String → Bool
+  | "Lock" :: "deferUnlock" :: rest => rest.all (fun s => s == "queue" || s == "write" || s == "setServing")
+  | _ => false
+
+/-- `WriteEvent` and `SetServing` in the source now (Generated/EventLock.lean): the event lock is a plain mutex (two event
+    writers never hold it together: appends to the queue of kept-back events do not race), both methods run entirely under
+    it — `WriteEvent` from the test "is a request being served?" to the end of the socket write (when `SetServing(true)`
+    returns, no event is in flight), `SetServing(false)` from the first kept-back event to the last (an event reported
+    meanwhile waits and is written after them, it is not queued behind a flush that is already over). -/
+theorem event_paths_under_one_lock :
+    Hc.Generated.eventMutexKind = "sync.Mutex" ∧
+    underEventLock Hc.Generated.writeEventPath = true ∧ Hc.Generated.writeEventPath.contains "write" = true ∧
+    Hc.Generated.writeEventPath.contains "queue" = true ∧
+    underEventLock Hc.Generated.setServingPath = true ∧ Hc.Generated.setServingPath.contains "write" = true ∧
+    Hc.Generated.setServingPath.contains "setServing" = true := by decide
+
+/-- the shapes of three plausible "improvements" are not accepted: the lock released before the write, a shared lock, the
+    flush outside the lock -/
+theorem event_lock_shapes_refuted :
+    underEventLock ["Lock", "queue", "Unlock", "Unlock", "write"] = false ∧
+    underEventLock ["RLock", "deferRUnlock", "queue", "write"] = false ∧
+    underEventLock ["Lock", "queue", "Unlock", "write", "Lock", "setServing", "Unlock"] = false := by decide
 
 end Hc.Props.C08
